@@ -56,7 +56,7 @@ static void run_tracker(const vh::Json& segs, uint32_t isn, vh::Out& out, const 
     out.end();
 }
 
-static void run_flow(const vh::Json& segs, uint32_t isn, bool v6, vh::Out& out, const std::string& cfg) {
+static void run_flow(const vh::Json& segs, uint32_t isn, bool v6, vh::Out& out, const std::string& cfg, vh::Rng& rng) {
     out.begin(cfg + ",\"obj\":\"" + (v6 ? "flow6" : "flow4") + "\"");
     std::vector<uint8_t> got; std::vector<std::pair<long, long> > ooo;
     Flow* fp = v6 ? new Flow(IPv6Address("2001:db8::2"), 80, isn) : new Flow(IPv4Address("10.0.0.2"), 80, isn);
@@ -66,8 +66,16 @@ static void run_flow(const vh::Json& segs, uint32_t isn, bool v6, vh::Out& out, 
     // in the IPv6 runs the segment(s) reaching the highest position of the scenario carry FIN, as the sender's last segment
     // does: "the segments of one direction in any order" includes the final segment overtaking earlier data
     long top = 0; for (size_t i = 0; i < segs.size(); ++i) top = std::max<long>(top, segs[i][0].num() + segs[i][1].num());
+    // in half of the runs the direction starts with its SYN (sequence number isn - 1), and the SYN is "duplicated" later: it arrives
+    // again at one or two random points between the data segments, as a delayed copy of it would ("with any duplication")
+    const bool with_syn = rng.coin();
+    auto feed_syn = [&]() { TCP syn(80, 4000); syn.seq(isn - 1); syn.flags(TCP::SYN);
+        if (v6) { IPv6 p = IPv6("2001:db8::2", "2001:db8::1") / syn; f.process_packet(p); } else { IP p = IP("10.0.0.2", "10.0.0.1") / syn; f.process_packet(p); } };
+    if (with_syn) feed_syn();
+    size_t dup1 = with_syn && segs.size() > 1 ? 1 + rng.below((uint32_t)segs.size() - 1) : (size_t)-1, dup2 = with_syn && rng.coin() && segs.size() > 2 ? 1 + rng.below((uint32_t)segs.size() - 1) : (size_t)-1;
     for (size_t i = 0; i < segs.size(); ++i) {
         long off = segs[i][0].num(), len = segs[i][1].num();
+        if (i == dup1 || i == dup2) feed_syn();
         got.clear(); ooo.clear();
         TCP tcp(80, 4000); tcp.seq(isn + (uint32_t)off); tcp.flags((v6 && off + len == top) ? (TCP::ACK | TCP::FIN) : TCP::ACK);
         std::vector<uint8_t> b = seg_bytes(off, len);
@@ -139,7 +147,7 @@ static void scenario(const vh::Json& sc, vh::Out& out, vh::Rng& rng, const vh::A
     for (size_t i = 0; i < isns.size(); ++i) {
         std::string cfg = "\"L\":" + std::to_string(L) + ",\"isn\":\"" + std::to_string(isns[i]) + "\"";
         if (objs.find("tracker") != std::string::npos) run_tracker(segs, isns[i], out, cfg);
-        if (objs.find("flow") != std::string::npos) run_flow(segs, isns[i], rng.coin(), out, cfg);
+        if (objs.find("flow") != std::string::npos) { bool v6 = rng.coin(); run_flow(segs, isns[i], v6, out, cfg, rng); }
         if (objs.find("legacy") != std::string::npos) { bool sd = rng.coin(); run_legacy(segs, isns[i], sd, out, cfg, rng, args.num("own", 0) != 0); }
     }
 }
